@@ -103,8 +103,10 @@ def run(pid, tier):
     out.rule = ("seeded family of small people-maximising instances (3-4 months quick, 3-6 thorough; stored food, crops, meat, single-cell "
                 "protein, retail waste 0 / 50 %, feed charge, both stock regimes; integer supplies on a grid containing the optimum): the real "
                 "Optimizer's optimum vs MC_Optimum's exhaustive search over every feasible allocation (achieve: reachable; better: "
-                "unreachable), its allocation vs Ledger.tla with OptimumAchieved; plus OptimumAchieved on every people-maximising round "
-                "of the corpus; distinct = instances + corpus rounds")
+                "unreachable), its allocation vs Ledger.tla with OptimumAchieved; on every round of the corpus OptimumAchieved / "
+                "ScoreAchieved and the admissibility clauses, plus a witness search: an independent statement of Ledger.tla's admissible "
+                "set proposes the best allocation, and if Trace_Ledger accepts one that beats the reported optimum it is a violation; "
+                "distinct = instances + corpus rounds")
     insts = gen_instances(tier, C.seed())
     a_insts = gen_animal_instances(tier, C.seed())
     try:
@@ -220,27 +222,81 @@ def run(pid, tier):
         out.sample(dict(instance=by_id[first["id"]], reported_percent=zs[first["id"]], witness=got.get((first["id"], "achieve"), {}).get("alloc")))
     # achievability by the code's own allocation, small instances and corpus
     ncorpus = 0
+    real = []
     for run_ in corpus.runs(tier):
         if run_.get("recorder_error"):
             continue
         for lp in run_.get("lps", []):
-            if lp["kind"] == "H":
-                traces.append(ledger.lp_trace(run_, lp))
-                ncorpus += 1
+            t = ledger.lp_trace(run_, lp)
+            traces.append(t)
+            real.append((run_, lp, t))
+            ncorpus += 1
     fails = tracecheck.validate("Trace_Ledger", "Trace_Ledger.cfg", traces, out, name="Trace_Ledger_C02")
+    failed_traces = set()
     for (t, l, clause) in fails:
         h = t["hdr"]
+        failed_traces.add(id(t))
         if "inst" in h:
             # on the small instances the code must also be *feasible*: every Ledger clause counts
             out.violation("small:%s" % clause, "instance %d: the Optimizer's own allocation violates %s (reported %.4f %%)" % (h["inst"]["id"], clause, h["z"]),
                           dict(instance=h["inst"], clause=clause, event_index=l))
-        elif clause == "OptimumAchieved":
-            out.violation("OptimumAchieved:corpus", "%s %s round %d: worst month of the allocation differs from the reported optimum" % (h["cc"], h["preset"], h["round"]),
+        elif clause in ("OptimumAchieved", "ScoreAchieved"):
+            out.violation("%s:corpus" % clause, "%s %s round %d: worst month of the allocation differs from the reported optimum" % (h["cc"], h["preset"], h["round"]),
                           dict(hdr=h, clause=clause))
+        elif clause in ledger.C02_CLAUSES:
+            out.violation("%s:corpus:%s" % (clause, "storage" if h["store"] else "first-year-only"),
+                          "%s %s round %d: the Optimizer's allocation is not admissible (%s) at event %d" % (h["cc"], h["preset"], h["round"], clause, l),
+                          dict(hdr=h, clause=clause, event_index=l))
+    # optimality on the full-size instances: a candidate allocation from an independent statement of Ledger.tla's admissible
+    # set (harness/witness.py); it counts only if Trace_Ledger accepts it and its worst month beats the reported optimum
+    from multiprocessing import Pool
+    from . import witness
+    with Pool(C.NCPU) as pool:
+        wres = pool.map(witness.job, [(k, lp) for k, (_, lp, _) in enumerate(real)
+                                      if not (lp["consts"].get("include_fat") or lp["consts"].get("include_protein"))], chunksize=4)
+    cand = []
+    wstat = {}
+    for r in wres:
+        run_, lp, t = real[r["idx"]]
+        wstat[r["status"][:24]] = wstat.get(r["status"][:24], 0) + 1
+        if r["status"] != "Optimal":
+            continue
+        z = lp["z"]
+        tol = 2e-4 * max(1.0, abs(z)) + 1e-4
+        if r["z"] > z + tol:
+            wt = ledger.lp_trace(run_, dict(lp, vars=r["vars"], z=r["z"]))
+            wt["hdr"].update(reported=z, witness_z=r["z"], witness=True)
+            cand.append((wt, r, run_, lp))
+        elif r["z"] < z - tol and id(t) not in failed_traces and lp["kind"] == "H":
+            out.machinery.append("witness search inconsistent with Ledger.tla: %s %s round %d reports %.6f with an allocation the specification "
+                                 "accepts, the search found only %.6f" % (run_["job"]["cc"], run_["job"]["preset"], lp["round"], z, r["z"]))
+    out.extra["witness_search"] = wstat
+    out.extra["witness_candidates"] = len(cand)
+    if cand:
+        wfails = tracecheck.validate("Trace_Ledger", "Trace_Ledger.cfg", [c_[0] for c_ in cand], out, name="Trace_Ledger_witness")
+        rejected = {}
+        for (t, l, clause) in wfails:
+            if clause == "FullyUsedStored" and not t["hdr"]["store"]:
+                continue  # (the first-year-only regimes cannot use up the stock: known finding of C01, not an admissibility condition here)
+            rejected.setdefault(id(t), []).append(clause)
+        for wt, r, run_, lp in cand:
+            h = wt["hdr"]
+            if id(wt) in rejected:
+                out.machinery.append("witness search inconsistent with Ledger.tla: candidate for %s %s round %d rejected by %s"
+                                     % (h["cc"], h["preset"], h["round"], sorted(set(rejected[id(wt)]))))
+                continue
+            out.violation("BetterAllocationExists:real:%s:%s" % ("humans" if h["kind"] == "H" else "animals", "storage" if h["store"] else "first-year-only"),
+                          ("%s %s round %d: the Optimizer reported %.6f %% but an allocation that Ledger.tla accepts feeds %.6f %% in its worst month"
+                           if h["kind"] == "H" else
+                           "%s %s round %d: the Optimizer reported a weighted feed and biofuel total of %.6f but an allocation that Ledger.tla accepts delivers %.6f")
+                          % (h["cc"], h["preset"], h["round"], h["reported"], h["witness_z"]),
+                          dict(hdr=h, reported=h["reported"], witness_percent=h["witness_z"], allocation=r["vars"], inputs=dict(consts=lp["consts"], series=lp["series"])))
     out.distinct_n = solved + ncorpus
-    out.extra.update(instances=len(insts), solved=solved, corpus_human_rounds=ncorpus)
+    out.extra.update(instances=len(insts), solved=solved, corpus_rounds=ncorpus)
     out.assumptions = ["on the integer grid the optimum of the max-min problem is a grid point (supplies are multiples of 2 * lcm(1..4)); a reported "
                        "optimum that is not on the grid is bracketed (floor achievable, floor + 1 not)",
-                       "instances use a requirement large enough for the intake caps not to bind; full-size instances are covered only by "
-                       "achievability (OptimumAchieved), C01 and C12"]
+                       "small instances use a requirement large enough for the intake caps not to bind; full-size instances are decided by "
+                       "the witness search (harness/witness.py proposes, Trace_Ledger certifies) - complete only as far as CBC finds the "
+                       "optimum of the restated problem; fat / protein requirements are not modelled (no shipped scenario requires them)",
+                       "feed-maximising round: the candidate may use the hand-off's pinning tolerance (1e-4 below ten million people, 1e-5 otherwise)"]
     return out.finish()
